@@ -52,7 +52,13 @@ func kwField() *mapping.FieldMapping {
 // BuildMapping declares t, a[x,y,c[u,v]], b[z,w] with the arrays of k mapped
 // nested (mapping.NewNestedDocumentStaticMapping) and the others as plain
 // sub-document mappings (flattened). Keyword analyzer: analysis is identity.
-func BuildMapping(k Kind, n Naming) mapping.IndexMapping {
+func BuildMapping(k Kind, n Naming) mapping.IndexMapping { return BuildMappingStyle(k, n, 0) }
+
+// BuildMappingStyle is BuildMapping put together in one of the ways applications
+// do: style 1 also declares a mapping for another document type (no document
+// of the corpus has it, they are all mapped by the default mapping), style 2
+// validates the mapping once before the array mappings are attached.
+func BuildMappingStyle(k Kind, n Naming, style int) mapping.IndexMapping {
 	sub := func(arr string) *mapping.DocumentMapping {
 		if k.Has(arr) {
 			return mapping.NewNestedDocumentStaticMapping()
@@ -73,11 +79,22 @@ func BuildMapping(k Kind, n Naming) mapping.IndexMapping {
 	b := sub("b")
 	b.AddFieldMappingsAt("z", kwField())
 	b.AddFieldMappingsAt("w", kwField())
+	if style%3 == 2 {
+		im.DefaultMapping = root
+		_ = im.Validate()
+	}
 	root.AddSubDocumentMapping(n.A, a)
 	root.AddSubDocumentMapping(n.B, b)
 	im.DefaultMapping = root
+	if style%3 == 1 {
+		other := mapping.NewDocumentStaticMapping()
+		other.AddFieldMappingsAt("t", kwField())
+		im.AddDocumentMapping("othertype", other)
+	}
 	return im
 }
+
+var mappingStyle int64
 
 func terms(ts []int) []interface{} {
 	out := make([]interface{}, len(ts))
@@ -206,7 +223,8 @@ type Real struct {
 
 func OpenReal(dir string, k Kind, n Naming) (*Real, error) {
 	path := filepath.Join(dir, "idx")
-	idx, err := bleve.NewUsing(path, BuildMapping(k, n), scorch.Name, scorch.Name, nil)
+	style := int(atomic.AddInt64(&mappingStyle, 1))
+	idx, err := bleve.NewUsing(path, BuildMappingStyle(k, n, style), scorch.Name, scorch.Name, nil)
 	if err != nil {
 		return nil, err
 	}
